@@ -15,6 +15,10 @@ CHECKS = {
    text="Every call shape within the bound (callable kind x arity x defaults x variable/attribute/concrete per argument x positional/keyword split) is one case; argument values are unbounded z3 integers, so for each shape the solver decides, on every path of the real predicate.py/symbolic.py code, that results equal filtering with the concrete call and that the body was invoked once per candidate binding with every parameter bound to the argument written in that position.",
    note="Arity <= 2 quick / <= 3 thorough, 2 objects per domain, <= 2 variables; no *args/**kwargs or keyword-only parameters; call order not asserted. Trusted: z3, symx proxies (validated against native runs every run).",
    technique=SYMX),
+ "C19": dict(category="model_checking", design="DESIGN.md 4 C19", engine="symx+symstr, CrossHair",
+   text="The real from_json runs on a symbolic ASCII tag (vector of bounded symbolic character codes, every length up to the bound) against a nondeterministic import environment (every outcome importlib's contract allows x every kind of object a name can resolve to); all paths are explored and on each the solver decides that the outcome is a documented error identifying the problem or an instance of exactly the named class, also when the document is presented twice. Counterexamples are replayed against the real import system (environment realised through sys.modules). A categorical pool with real imports and CrossHair obligations on str/int/float/list/dict tags over Unicode complement it as bug hunting.",
+   note="Tags <= 7 (quick) / <= 9 (thorough) ASCII characters in the exhaustive part; import_module/getattr are stubs constrained by their contract (listed in evidence.assumptions); CrossHair 'Not confirmed' is inconclusive and reported as such. Trusted: z3, symx/symstr proxies (validated against native runs), CrossHair.",
+   technique="symbolic execution of the real resolver over z3 (symx with symbolic strings, environment as nondeterministic stubs); CrossHair as second engine"),
 }
 NA_REASON = "check not built yet (build in progress, see DESIGN.md section 9 for the build order)"
 NA = {}
